@@ -38,7 +38,7 @@ CLAIMED = {
  'C18': ('Full statement over R for all segments and t with non-vanishing derivative: tangent = unit derivative (also via Derive), line tangent = unit chord, normal = tangent turned ccw for lines and curves, start/end angles = leg directions, curvature formula for cubics and quadratics with the hodograph\'s derivative, line curvature 2^-52.',
          'translator-regenerated kernels; trig (atan2/cos/sin) and Rpower lemmas; kernel cross-check through a recorded libm table', '4/C18'),
  'C03': ('Proved over R: extremes are exactly the sign-change parameters of x\' or y\' in [0.01,0.99] (quadratics; cubics with a genuine or exactly vanishing leading coefficient), none for lines; the split walk retraces the original piece by piece for ANY request list, '
-         'keeps all nodes, start, end and connectivity; every piece between the cuts is monotone up to 0.06% of the original extent (exactly monotone without sliver zeros). Paths containing the same segment value twice are a recorded known finding (refutation witness proved). Float placement of cuts is measured.',
+         'keeps all nodes, start, end and connectivity; every piece between the cuts is monotone up to 0.06% of the original extent (exactly monotone without sliver zeros; the tolerance form needs no non-degeneracy hypothesis on the leading coefficient of the derivative). Paths containing the same segment value twice are a recorded known finding (refutation witness proved). Float placement of cuts is measured.',
          'translator-regenerated kernels + hand model of splitAtPoints/addExtremes (value-keyed dict) with bit-exact correspondence; induction over the walk, Simpson/IVT sign analysis', '4/C03'),
  'C06': ('Proved over R on a hand model tied by bit-exact correspondence (ranges are dyadic): range invariant (a visited piece IS the sub-curve of its range), every report comes from two overlapping boxes of area < 1e-3 with an explicit distance bound, no crossing is missed modulo box enclosure, dedup keeps the first report per key, hasLoop returns a genuine double point iff the discriminant is negative, self-intersection enumeration. '
          'Operand-order: the reports before de-duplication are exact swapped permutations of each other (any carrier incl. binary64), mixed-degree calls are identical, what survives de-duplication is characterised and count symmetry is refuted on the binary64 model. The quantitative 0.2% clauses are REFUTED for the model and the code (two recorded known findings: area stop rule, dedup bucket); they are watched by the search.',
@@ -51,7 +51,7 @@ CLAIMED = {
          'hand model of the three flatten routines over the sampler model with bit-exact correspondence; list induction', '4/C17'),
  'C11': ('Proved on a hand model tied by bit-exact correspondence: |sum of n signs| has the parity of n (so the result\'s parity is the crossing count\'s whatever the tangents); for closed polygons in explicit general position (level clear of every node by the code\'s own 2e-7 window, no isclose-but-not-exact vertical edge, ray shorter than 5e7 units, distinct crossing points) '
          'pointIsInside is the even-odd parity of the edges crossed by the leftward ray, left and right parities agree, the winding number is the absolute signed count, and it is 0 outside the bounding box; per-segment crossing lemmas for curves. '
-         'Each excluded case is a recorded known finding with a refutation witness (five classes). Even-odd for curved segments is searched only.',
+         'The same is proved for closed paths of lines, quadratics and cubics (root-parity lemma for polynomials, even number of level crossings around a closed chain, glue through the dictionaries) under the analogous general-position bundle, with the extra hypothesis that the crossings lie inside the computed box. Each excluded case is a recorded known finding with a refutation witness (five classes).',
          'hand model of windingNumberOfPoint over the generated intersection kernels; telescoping balance argument over the closed chain; from-scratch even-odd search incl. level-with-node families', '4/C11'),
  'C14': ('Proved for ANY numeric core: segment count never exceeds the budget, a budget of n-1 suffices, accepted pieces cover the data with shared end points; for the transcribed numeric core over R: first/last points interpolated exactly, the chain is connected, every input point within sqrt(error+1e-9) of its accepted cubic at a parameter in [0,1], the three "return []" exits are dead code, '
          'adjacent-duplicate removal is exactly that; the only escape is a corner re-entry that would diverge (characterised, never observed). The float run taking the same decisions and finiteness of control points are measured (bit-exact correspondence of the whole fitter incl. its call log).',
